@@ -71,8 +71,9 @@ pub fn run(a: &Args, out: &mut Out) {
     let mut k = 0u64;
     while !out.full() {
         k += 1;
-        let xa = if k % 5 == 0 { unitary(&mut rng, &poolr) } else { elem_bytes(&mut rng, &poolq, 12) };
-        let xb = if k % 7 == 0 { unitary(&mut rng, &poolr) } else { elem_bytes(&mut rng, &poolq, 12) };
+        // operand classes are drawn independently of the operation (k): unitary (pairing values) 1 in 5, else random / sparse / subfield
+        let xa = if rng.gen_range(0..5) == 0 { unitary(&mut rng, &poolr) } else { elem_bytes(&mut rng, &poolq, 12) };
+        let xb = if rng.gen_range(0..7) == 0 { unitary(&mut rng, &poolr) } else { elem_bytes(&mut rng, &poolq, 12) };
         let (fa, fb) = (fq12_from(&xa), fq12_from(&xb));
         match k % 10 {
             0 | 1 => {
@@ -113,6 +114,15 @@ pub fn run(a: &Args, out: &mut Out) {
             7 => {
                 // F_q^4
                 let (ya, yb) = (elem_bytes(&mut rng, &poolq, 4), elem_bytes(&mut rng, &poolq, 4));
+                // every fourth round: b = the conjugate of a over F_q^2 (c1 negated): the v-coefficient of the product vanishes
+                let yb = if k % 40 == 7 {
+                    let mut t = ya.clone();
+                    for l in 0..2 {
+                        let neg = (-sm9_core::Fq::from_slice(&ya[32 * l..32 * l + 32]).unwrap()).to_slice();
+                        t[32 * l..32 * l + 32].copy_from_slice(&neg);
+                    }
+                    t
+                } else { yb };
                 let (ga, gb) = (fq4_from(&ya), fq4_from(&yb));
                 out.call("x.fq4.mul", json!({"a": b(&ya), "b": b(&yb)}), || {
                     outs! {"out" => b(&(ga * gb).to_slice()), "sqr" => b(&ga.squared().to_slice()), "inv" => opt_bytes(ga.inverse().map(|x| x.to_slice())),
